@@ -3,6 +3,7 @@ import SdJwt.Lemmas.RestoreAll
 import SdJwt.Lemmas.Complete
 import SdJwt.Lemmas.MarkInv
 import SdJwt.Lemmas.EndToEnd
+import SdJwt.Lemmas.Example
 /-!
 # C01 — issuance round trip returns exactly the original claims and their paths
 
@@ -186,21 +187,6 @@ theorem C01_encode_ok (mk : Nat → Option String → J → String) (paths : Lis
     encode (MJ.obj ms none).payload paths mk decoys (cnf.map (·.payload)) =
       .ok ((finish Tn decoys (!ds.isEmpty) cnf).payload, ds.map toSrc) :=
   encode_tree mk paths addr ms none Tn ds decoys cnf wf hp h hk1 hk2
-
-/-- the instance used to show that the hypotheses of `C01_end_to_end` can be met -/
-def exMs : MMems := .clear "a" (.leaf (.num 1 0))
-  (.clear "n" (.arr (.clear (.leaf (.str "x")) (.clear (.leaf (.str "y")) .nil))) .nil)
-def exMk : Nat → Option String → J → String := fun i _ _ => "dg" ++ toString i
-def exRt : Rt where
-  hash := fun _ s => s
-  decodeDisc := fun s =>
-    if s = "dg0" then some (.arr [.str "s0", .str "y"])
-    else if s = "dg1" then some (.arr [.str "s1", .str "a", .num 1 0]) else none
-  decodeClaims := fun _ => none
-  jwtDecode := fun _ => match encode (MJ.obj exMs none).payload ["/n/1", "/a"] exMk none none with
-    | .ok (p, _) => .ok (.null, p)
-    | _ => .err .decoding
-  kbDecode := fun _ _ => .err .decoding
 
 /-- non-vacuity of `C01_end_to_end`: claims `{"a":1,"n":["x","y"]}`, paths `/n/1` then `/a`, a
 runtime whose JWT library returns what the issuer model produced — every hypothesis is met, and
